@@ -19,8 +19,10 @@ ModSet(levels) == {Mods[k] : k \in 1..levels}
 \* expose = "top": `-m pkg` (filters name modules "a" / "g");  expose = "sub": `-m pkg.sub` (a dotted module: levels >= 2), where
 \* the filters name the exposed package itself ("self") -- the blacklist wins over the whitelist
 Opts == {o \in [levels : 1..3, emit : EmitKinds, recursive : BOOLEAN, black : SUBSET {"a", "g", "self"}, white : SUBSET {"a", "g", "self"},
-               dry : BOOLEAN, out_exists : BOOLEAN, expose : {"top", "sub"}] :
+               dry : BOOLEAN, out_exists : BOOLEAN, expose : {"top", "sub"}, prior : BOOLEAN] :
            /\ Cardinality(o.black) <= 1 /\ Cardinality(o.white) <= 1
+           \* prior: an earlier REAL run of the same command has already populated the output directory (a history: dry runs only)
+           /\ (o.prior => o.dry /\ o.out_exists)
            /\ (o.expose = "top" => /\ o.black \subseteq ModSet(o.levels) /\ o.white \subseteq ModSet(o.levels)
                                     /\ (o.black = {} \/ o.white = {}))                  \* one of the two filters at a time
            /\ (o.expose = "sub" => /\ o.levels >= 2 /\ o.black \subseteq {"self"} /\ o.white \subseteq {"self"}
@@ -51,17 +53,18 @@ VARIABLES o, fs, pc
 vars == <<o, fs, pc>>
 SE == INSTANCE SequencesExt
 OptSeq == SE!SetToSeq(Opts)
+RealRun(x) == {<<"out", "">>} \cup (IF FilterIgnored(x) THEN {<<"out", m>> : m \in Walked(x)} \cup {<<"out", "__init__">>} ELSE Gen(x))
+Before == Src(o) \cup (IF o.prior THEN RealRun(o) ELSE IF o.out_exists THEN {<<"out", "">>} ELSE {})
 Init == /\ o \in {OptSeq[k] : k \in {j \in 1..Len(OptSeq) : j % NShards = Shard}}
-        /\ fs = Src(o) \cup (IF o.out_exists THEN {<<"out", "">>} ELSE {})
+        /\ fs = Before
         /\ pc = "start"
 Run == /\ pc = "start"
        /\ fs' = IF o.dry THEN (IF DryWrites(o) THEN fs \cup {<<"out", "sqlalchemy_mod">>} ELSE fs)
-                ELSE fs \cup {<<"out", "">>} \cup (IF FilterIgnored(o) THEN {<<"out", m>> : m \in Walked(o)} \cup {<<"out", "__init__">>} ELSE Gen(o))
+                ELSE fs \cup RealRun(o)
        /\ pc' = "done" /\ UNCHANGED o
 Next == Run
 Spec == Init /\ [][Next]_vars
 
-Before == Src(o) \cup (IF o.out_exists THEN {<<"out", "">>} ELSE {})
 DryRunPure == (pc = "done" /\ o.dry) => fs = Before
 UnderOut == pc = "done" => \A p \in fs \ Before : p[1] = "out"
 SourceUntouched == pc = "done" => {p \in fs : p[1] = "src"} = Src(o)
@@ -72,7 +75,7 @@ AllFourOrDeviation == pc = "done" => (AllFour \/ Fired(o) # {})
 RECURSIVE SetToSeq(_)
 SetToSeq(S) == IF S = {} THEN <<>> ELSE LET x == CHOOSE x \in S : TRUE IN <<x>> \o SetToSeq(S \ {x})
 Dump == pc = "done" => PrintT(ToJson([o |-> [levels |-> o.levels, emit |-> o.emit, recursive |-> o.recursive, dry |-> o.dry,
-                                             expose |-> o.expose, out_exists |-> o.out_exists, black |-> SetToSeq(o.black), white |-> SetToSeq(o.white)],
+                                             expose |-> o.expose, out_exists |-> o.out_exists, prior |-> o.prior, black |-> SetToSeq(o.black), white |-> SetToSeq(o.white)],
                                       included |-> SetToSeq(Included(o)), excluded |-> SetToSeq(Excluded(o)),
                                       devs |-> SetToSeq(Fired(o))]))
 =====================================================================================
